@@ -5,7 +5,7 @@ the contracts of std / rust_decimal / num_complex (declined; grammar containment
 from .. import spec, thir as T
 from ..pat import M, subterms
 from .common import setup, report_issues, where
-from ..scanners import check_literals, converter_calls
+from ..scanners import check_literals, converter_calls, imaginary_suffix
 
 LEVEL = "other"
 PID = "C19"
@@ -20,6 +20,8 @@ def main(tier):
         return run.finish("scanner analysis", "./check C19 --tier %s" % tier, explanation="-")
     for ev, m in models.items():
         check_literals(run, m, "C19")
+        if ev == "eval_complex":
+            imaginary_suffix(run, m, "C19")      # "imaginary with an `i` suffix"; also what makes the printed a+bi read back
         w = where(m, "::tokenizer::Tokenizer")
         # the literal token of each of the four forms is a single token: interpreting the scanner arm
         # (digits start the digit arm; '.' followed by a digit starts the dot arm; nothing else starts a literal)
